@@ -108,6 +108,8 @@ type Delivered struct {
 
 // Result is what one executed operation looked like from outside (for the monitors).
 type Result struct {
+	// an operation that reported success although (part of) its effect is missing from the tables
+	Lost string
 	Op                        Op
 	T                         int64 // clock before
 	TAfter                    int64
@@ -269,7 +271,13 @@ func firstQueryCol0(stmts []*Stmt, pred func(sql string) bool) []uuid.UUID {
 func (w *World) run(a interface {
 	Execute(context.Context, *ent.Tx) error
 }) error {
-	return w.Client.DoCtxTx(w.Ctx, nil, a.Execute)
+	return w.Client.DoCtxTx(w.Ctx, nil, func(ctx context.Context, tx *ent.Tx) error {
+		err := a.Execute(ctx, tx)
+		if err == nil && w.preCommit != nil {
+			w.preCommit()
+		}
+		return err
+	})
 }
 
 // Exec runs one operation against the implementation, appends its protocol lines (operation with
@@ -729,6 +737,9 @@ func (w *World) execPublish(op Op, res *Result, hdr func(string) string) string 
 				r, _ := a.Results()
 				ids = append(ids, r.ID)
 			}
+			if w.preCommit != nil {
+				w.preCommit()
+			}
 			return nil
 		})
 	}
@@ -744,7 +755,9 @@ func (w *World) execPublish(op Op, res *Result, hdr func(string) string) string 
 	for i, id := range ids {
 		m, merr := w.Client.Message.Query().Where(message.ID(id)).Only(qctx)
 		if merr != nil {
-			w.T.Fatalf("published message not found: %v", merr)
+			// the publish reported success and handed out this id, but nothing is stored
+			res.Lost = fmt.Sprintf("publish on %s returned message id %s but no such message is stored (%v)", op.Topic, id, merr)
+			continue
 		}
 		ds, _ := w.Client.Delivery.Query().Where(delivery.MessageID(id)).All(qctx)
 		// creation order = order of appearance in the insert statements
